@@ -28,7 +28,7 @@ def replay(g, o, assigns, path):
 
 MANIFEST = {
     "category": "proof",
-    "text": 'Unbounded proof of the contract-expressible part: flag i <=> |est_i|*||f|| < tol*max(eps^(2/3),|theta_i|) element-wise; flags at exit of compute() were computed from the Ritz data that is returned (no stale flags); value/estimate/vector/flag of a pair stay together through retrieve, sort and the accessors; compute() only ever extends a factorization from the step at which it is valid (typestate, all init/compute histories). The residual bound itself and orthonormality are numerical and NOT decided. The factorization (expand_basis, Lanczos factorize_from) and accessor (eigenvalues, eigenvectors) contracts are part of this check.',
+    "text": 'Unbounded proof of the contract-expressible part: flag i <=> |est_i|*||f|| < tol*max(eps^(2/3),|theta_i|) element-wise; flags at exit of compute() were computed from the Ritz data that is returned (no stale flags); value/estimate/vector/flag of a pair stay together through retrieve, sort and the accessors; compute() only ever extends a factorization from the step at which it is valid (typestate, all init/compute histories). The residual bound itself and orthonormality are numerical and NOT decided. The factorization (expand_basis, Lanczos factorize_from) and accessor (eigenvalues, eigenvectors) contracts are part of this check. Third session: compute() is verified against the join of the base and shift-mode contracts of the virtual sort_ritzpair, and the convergence test is required to run on Ritz values that have not been back-transformed.',
     "note": 'floating-point values of Eigen expressions are havocked (lossy extraction, every abstracted statement listed in the evidence); callee contracts are generated stubs sharing clause texts with the enforcing harness; std::sort/Eigen/operator contracts assumed; Skolem instantiation meta-rule',
     "technique": "CBMC dfcc frame contracts + loop contracts + harness-asserted postconditions on mechanically extracted C (cadical)",
 }
